@@ -73,11 +73,13 @@ namespace chaiscript {
       t_long_double
     };
 
-    template<typename T>
-    constexpr static inline void check_divide_by_zero([[maybe_unused]] T t) {
+    /// Only an integral division traps: if either operand is floating point the operation is performed
+    /// in floating point (IEEE infinity / NaN), exactly as for a floating point divisor
+    template<typename LHS, typename RHS>
+    constexpr static inline void check_divide_by_zero([[maybe_unused]] const LHS &, [[maybe_unused]] const RHS &t_rhs) {
 #ifndef CHAISCRIPT_NO_PROTECT_DIVIDEBYZERO
-      if constexpr (!std::is_floating_point<T>::value) {
-        if (t == 0) {
+      if constexpr (!std::is_floating_point<LHS>::value && !std::is_floating_point<RHS>::value) {
+        if (t_rhs == 0) {
           throw chaiscript::exception::arithmetic_error("divide by zero");
         }
       }
@@ -178,7 +180,7 @@ namespace chaiscript {
         case Operators::Opers::sum:
           return const_var(c_lhs + c_rhs);
         case Operators::Opers::quotient:
-          check_divide_by_zero(c_rhs);
+          check_divide_by_zero(c_lhs, c_rhs);
           check_divide_overflow(c_lhs, c_rhs);
           return const_var(c_lhs / c_rhs);
         case Operators::Opers::product:
@@ -196,7 +198,7 @@ namespace chaiscript {
           case Operators::Opers::shift_right:
             return const_var(c_lhs >> c_rhs);
           case Operators::Opers::remainder:
-            check_divide_by_zero(c_rhs);
+            check_divide_by_zero(c_lhs, c_rhs);
             check_divide_overflow(c_lhs, c_rhs);
             return const_var(c_lhs % c_rhs);
           case Operators::Opers::bitwise_and:
@@ -222,7 +224,7 @@ namespace chaiscript {
             *t_lhs += c_rhs;
             return t_bv;
           case Operators::Opers::assign_quotient:
-            check_divide_by_zero(c_rhs);
+            check_divide_by_zero(c_lhs, c_rhs);
             check_divide_overflow(c_lhs, c_rhs);
             *t_lhs /= c_rhs;
             return t_bv;
@@ -248,7 +250,7 @@ namespace chaiscript {
               *t_lhs >>= c_rhs;
               return t_bv;
             case Operators::Opers::assign_remainder:
-              check_divide_by_zero(c_rhs);
+              check_divide_by_zero(c_lhs, c_rhs);
               check_divide_overflow(c_lhs, c_rhs);
               *t_lhs %= c_rhs;
               return t_bv;
